@@ -5,7 +5,7 @@
 EXTENDS IterDsl, Json, IOUtils, SequencesExt
 CONSTANTS Depth
 
-Adapters == {Ad("enumerate", 0), Ad("filter", 0), Ad("filter_map", 0), Ad("flat_map", 0), Ad("map", 1), Ad("rev", 0),
+Adapters == {Ad("enumerate", 0), Ad("filter", 0), Ad("filter_map", 0), Ad("flat_map", 0), Ad("flatten", 0), Ad("map", 1), Ad("rev", 0),
              Ad("skip", 1), Ad("skip_while", 0), Ad("take", 2), Ad("take_while", 0), Ad("zip", 0)}
 Consumers == {"for_each", "collect", "all", "any", "count", "find", "find_map", "rfind", "fold", "rfold", "next",
               "nth", "position", "rposition"}
